@@ -2,7 +2,7 @@
 import copy, re
 from .. import core, relcheck
 from ..gen import grel
-from . import c01
+from . import c01, c06
 
 POOLS = {
     "sql_keyword": ["select", "order", "group", "table", "from", "where", "user", "index", "limit", "union", "values", "join", "on", "as", "by", "having", "distinct", "end", "when", "then"],
@@ -175,15 +175,21 @@ def make_map(rng, names, cls):
 BARE_OK = re.compile(r"^[a-z_][a-z0-9_]*$")
 
 
-def static_check(w, src, hostile, user_all):
+def static_check(w, src, hostile, user_all, base_src=None):
     """Other dialects: every identifier in the emitted statement is verbatim a user name (or a generated one), quoted unless plain."""
     out = []
     for dialect in core.DIALECTS:
         r = w.call({"op": "compile", "src": src, "target": "sql." + dialect})
         if "sql" not in r:
             continue
-        p = w.call({"op": "sqlparse", "dialect": {"glaredb": "postgres"}.get(dialect, dialect), "sql": r["sql"], "ast": True})
+        pd = {"glaredb": "postgres"}.get(dialect, dialect)
+        p = w.call({"op": "sqlparse", "dialect": pd, "sql": r["sql"], "ast": True})
         if not p.get("ok"):
+            # only the renaming is judged here: the un-renamed program must parse for this dialect
+            if base_src is not None:
+                rb = w.call({"op": "compile", "src": base_src, "target": "sql." + dialect})
+                if "sql" not in rb or not w.call({"op": "sqlparse", "dialect": pd, "sql": rb["sql"]}).get("ok"):
+                    continue
             out.append((dialect, "statement_unparseable", r["sql"][:200]))
             continue
         idents = []
@@ -269,7 +275,7 @@ def _shard(seed, shard, n_cases):
                 # a rejection is not a wrong reference: counted, not judged (C09 speaks about emitted SQL)
                 obs["rejected"] += 1
             elif o.status in ("panic", "abort"):
-                symptoms.append(("renamed_panics", str(o.symptoms)[:200]))
+                symptoms.append(("renamed_panics", str(o.symptoms)[:200], (o.symptoms[0][0], o.symptoms[0][1])) if o.symptoms else ("renamed_panics", ""))
             elif o.status == "unspecified":
                 obs["unspecified"] += 1
             elif o.status == "judged":
@@ -278,17 +284,21 @@ def _shard(seed, shard, n_cases):
                     obs["cells"].add((cls, pos))
                 for (pp, sym, det) in o.symptoms:
                     if pp in ("C01", "C03", "C05", "C07"):
-                        symptoms.append(("renamed_" + sym, det + " || sql: " + (o.sql or "")[:300]))
+                        symptoms.append(("renamed_" + sym, det + " || sql: " + (o.sql or "")[:300], (pp, sym)))
             if rng.random() < 0.15:
                 obs["static_checks"] += 1
-                for (d2, sym, det) in static_check(w, src2, hostile, user_all):
+                for (d2, sym, det) in static_check(w, src2, hostile, user_all, grel.pp_program(prog)):
                     symptoms.append((sym + "@" + d2, det))
-            for (sym, det) in symptoms:
+            for item in symptoms:
+                sym, det = item[0], item[1]
+                under = item[2] if len(item) > 2 else None
                 key = (sym.split("@")[0], cls, tuple(sorted(positions)))
                 if key in seen:
                     continue
                 seen.add(key)
-                viols.append({"property": "C09", "symptom": sym, "shape": "%s :: %s/%s" % (dialect, cls, "+".join(sorted(positions))),
+                inh = c06.inherited(w, p2, db2, dialect, o, under) if under else "inherits:none"
+                w.db_open("h", grel.db_stmts(db2))
+                viols.append({"property": "C09", "symptom": sym, "shape": "%s :: %s/%s :: %s" % (dialect, cls, "+".join(sorted(positions)), inh.split(":from")[0][:40]),
                               "witness": {"prog": p2, "db": db2, "dialect": dialect, "class": cls, "map": [[list(k), v] for k, v in m.items()], "prql": src2},
                               "detail": det})
     w.close()
@@ -343,9 +353,16 @@ def replay(case):
     else:
         for (pp, sym, det) in o.symptoms:
             if pp in ("C01", "C03", "C05", "C07"):
-                out.append(("renamed_" + sym, det))
+                out.append(("renamed_" + sym, det, (pp, sym)))
     hostile = {v for _, v in case.get("map", [])}
     for (d2, sym, det) in static_check(w, grel.pp_program(case["prog"]), hostile, user_all):
         out.append((sym + "@" + d2, det))
+    res = []
+    pos = "+".join(sorted({k[0] for k, _ in case.get("map", [])})) if case.get("map") else ""
+    for item in out:
+        s_, d = item[0], item[1]
+        inh = c06.inherited(w, case["prog"], case["db"], case["dialect"], o, item[2]) if len(item) > 2 else "inherits:none"
+        res.append({"property": "C09", "symptom": s_, "shape": "%s :: %s/%s :: %s" % (case["dialect"], case.get("class", "?"), pos, inh.split(":from")[0][:40]),
+                    "witness": case, "detail": d})
     w.close()
-    return [{"property": "C09", "symptom": s, "shape": "", "witness": case, "detail": d} for s, d in out]
+    return res
